@@ -6,11 +6,12 @@ from vlib import txgen
 from vlib.txgen import Raw
 
 ID = "C13"
+NEEDS_CLI = True
 RULE = ("op tx.parse <json> -> kind + every field: every numeric field of every kind with boundary-biased integers in [0,2^256) in every spelling "
         "(JSON int, integral float x.0 / e-notation, decimal string, 0x hex string), equal integers in different spellings (extra check: identical parse), "
         "and a malformed stream injected into one field: negative ints/strings, fractions, sub-ulp fractions, huge/tiny exponents, >= 2^256 in decimal and hex, "
         "empty, 0x, odd/bad hex, wrong-length addresses/keys, null, booleans, arrays; also op json.f64 <literal> cross-checking the binary64 model against serde_json. "
-        "non-trivial = distinct document with at least one non-int spelling or an injected malformed field; judge = exact mathematical value of each literal")
+        "a random sample of the cases is re-run through every sub-command that reaches the same code (vlib/routes.py); non-trivial = distinct document with at least one non-int spelling or an injected malformed field; judge = exact mathematical value of each literal")
 EXHAUSTIVE_SWEEPS = {"quick": ["every numeric field x every spelling class x boundary table"], "thorough": ["every numeric field x every spelling class x boundary table"]}
 NUMERIC = {"legacy": ["chainId", "nonce", "gasPrice", "gas", "value"],
            "eip2930": ["chainId", "nonce", "gasPrice", "gas", "value"],
@@ -157,6 +158,8 @@ def gen(rng, tier):
         if rng.random() < 0.6:
             s += rng.choice("eE") + rng.choice(["", "+", "-"]) + str(rng.choice([0, 1, 5, 10, 22, 23, 100, 300, 308, 309, 320, 340, 400, rng.randrange(0, 700)]))
         cases.append(Case("json.f64 " + hx(s), tags=("f64",), nontrivial=False))
+    from vlib import routes
+    cases += routes.add_routes(cases, rng, 80, tier)
     return cases
 
 
@@ -207,3 +210,8 @@ def extra_checks(cases, impl, model, verdicts, tier, rng, cov):
 
 def shrink_candidates(line):
     return []
+
+
+def run_cli(case):
+    from vlib import cli
+    return cli.run_cli(case)
